@@ -603,7 +603,11 @@ func (o *oidcHandler) isValidIDToken(ctx context.Context, log telemetry.Logger, 
 		return false, codes.InvalidArgument
 	}
 	if ok {
-		tokenNonce := oidcNonce.(string)
+		tokenNonce, isString := oidcNonce.(string)
+		if !isString {
+			log.Info("id token nonce is not a string", "nonce-from-id-token", oidcNonce)
+			return false, codes.InvalidArgument
+		}
 		// if nonce is not required, both token and expected nonce must be present to perform the check
 		if (isNonceRequired || tokenNonce != "" && expectedNonce != "") && tokenNonce != expectedNonce {
 			log.Info("id token nonce does not match", "nonce-from-id-token", oidcNonce, "nonce-from-store", expectedNonce)
